@@ -412,7 +412,9 @@ func (s *TypedMapType) IsValidExpression(exp Exp, pipeline *Pipeline, ast *Ast) 
 		}
 		var errs ErrorList
 		isDir := (s.IsFile() == KindIsDirectory)
-		for key, subexp := range exp.Value {
+		// Iterate in key order, so that the error text is deterministic.
+		for _, key := range sortedMapKeys(exp.Value) {
+			subexp := exp.Value[key]
 			if err := s.Elem.IsValidExpression(subexp, pipeline, ast); err != nil {
 				errs = append(errs, &IncompatibleTypeError{
 					Message: "map key " + key,
@@ -467,7 +469,9 @@ func (s *TypedMapType) IsValidJson(data json.RawMessage,
 	subtype := s.Elem
 	isDir := (s.IsFile() == KindIsDirectory)
 	var errs ErrorList
-	for k, element := range m {
+	// Iterate in key order, so that the error text is deterministic.
+	for _, k := range sortedMapKeys(m) {
+		element := m[k]
 		if err := subtype.IsValidJson(element, alarms, lookup); err != nil {
 			errs = append(errs, &IncompatibleTypeError{
 				Message: "key " + k,
